@@ -1,5 +1,5 @@
 (** Proofs about the model of `cooler dump` / `load` / `cload pairs` (Model/Dump.v). *)
-From Coq Require Import String Ascii QArith DecimalString DecimalZ Permutation Sorted ZifyBool FinFun.
+From Coq Require Import String Ascii QArith DecimalString DecimalZ Decimal Permutation Sorted ZifyBool FinFun.
 From Coq Require Import List.
 From Cooler Require Import Model.Dump Proofs.PixelsProofs.
 Open Scope Z_scope.
@@ -1160,4 +1160,110 @@ Proof.
     destruct (Nat.eq_dec i j) as [->|Hne].
     + rewrite Hx in Hy. injection Hy as <-. unfold kltb. cbn [fst snd]. lia.
     + specialize (Hp i j x y ltac:(lia) Hx Hy). unfold binltb in Hp. unfold kltb. cbn [fst snd]. lia.
+Qed.
+
+(* ================================================================= 10. cload pairs: any layout of the positional columns *)
+(** `cload pairs -c1 a -p1 b -c2 c -p2 d` with ANY pairwise distinct one-based field numbers (any permutation, any gaps):
+    the schema is accepted and every positional field receives the text of its own column *)
+Theorem cload_positional_any_layout c1 p1 c2 p2 rec :
+  1 <= c1 <= Z.of_nat (length rec) -> 1 <= p1 <= Z.of_nat (length rec) ->
+  1 <= c2 <= Z.of_nat (length rec) -> 1 <= p2 <= Z.of_nat (length rec) ->
+  NoDup [c1; p1; c2; p2] ->
+  exists s r, cload_schema c1 p1 c2 p2 [] = Some s /\ s_out s = ["count"%string] /\
+    read_fields (s_in s) (s_num s) rec = Some r /\
+    assoc "chrom1" r = Some (nth (Z.to_nat (c1 - 1)) rec EmptyString) /\
+    assoc "pos1" r = Some (nth (Z.to_nat (p1 - 1)) rec EmptyString) /\
+    assoc "chrom2" r = Some (nth (Z.to_nat (c2 - 1)) rec EmptyString) /\
+    assoc "pos2" r = Some (nth (Z.to_nat (p2 - 1)) rec EmptyString).
+Proof.
+  intros H1 H2 H3 H4 Hn.
+  set (s := {| s_in := ["chrom1"; "pos1"; "chrom2"; "pos2"]%string;
+               s_num := [("chrom1", c1 - 1); ("pos1", p1 - 1); ("chrom2", c2 - 1); ("pos2", p2 - 1)]%string;
+               s_out := ["count"%string] |}).
+  assert (Es : cload_schema c1 p1 c2 p2 [] = Some s).
+  { unfold cload_schema. replace ((c1 =? 0) || (p1 =? 0) || (c2 =? 0) || (p2 =? 0)) with false by lia. reflexivity. }
+  destruct (read_fields_spec (s_in s) (s_num s) rec) as (r & Hr & _ & Ha).
+  - cbn. repeat match goal with H : NoDup (_ :: _) |- _ => apply NoDup_cons_iff in H as [? ?] end.
+    cbn [In] in *. repeat constructor; cbn [In]; intuition lia.
+  - intros n Hin. cbn in Hin. destruct Hin as [<-|[<-|[<-|[<-|[]]]]]; cbn; lia.
+  - exists s, r. split; [exact Es|]. split; [reflexivity|]. split; [exact Hr|].
+    repeat split; [rewrite (Ha "chrom1"%string)|rewrite (Ha "pos1"%string)|rewrite (Ha "chrom2"%string)|rewrite (Ha "pos2"%string)];
+      try reflexivity; cbn; tauto.
+Qed.
+
+(* ================================================================= 11. parse_field_param *)
+Fixpoint has_char (c : ascii) (s : string) : bool :=
+  match s with EmptyString => false | String a r => Ascii.eqb a c || has_char c r end.
+
+Lemma append_assoc' (a b c : string) : append (append a b) c = append a (append b c).
+Proof. induction a as [|x t IH]; cbn; [reflexivity|now rewrite IH]. Qed.
+Lemma append_nil_r (a : string) : append a EmptyString = a.
+Proof. induction a as [|x t IH]; cbn; [reflexivity|now rewrite IH]. Qed.
+
+Lemma split_aux_nosep sep s cur : has_char sep s = false -> split_aux sep s cur = [append cur s].
+Proof.
+  revert cur. induction s as [|a r IH]; intros cur H; cbn in *.
+  - now rewrite append_nil_r.
+  - apply orb_false_elim in H as [Ha Hr]. rewrite Ha. rewrite (IH _ Hr). now rewrite append_assoc'.
+Qed.
+
+Lemma split_aux_first sep s1 s2 cur :
+  has_char sep s1 = false ->
+  split_aux sep (append s1 (String sep s2)) cur = append cur s1 :: split_aux sep s2 EmptyString.
+Proof.
+  revert cur. induction s1 as [|a r IH]; intros cur H; cbn in *.
+  - rewrite Ascii.eqb_refl. now rewrite append_nil_r.
+  - apply orb_false_elim in H as [Ha Hr]. rewrite Ha. rewrite (IH _ Hr). now rewrite append_assoc'.
+Qed.
+
+Lemma has_char_append c a b : has_char c (append a b) = has_char c a || has_char c b.
+Proof. induction a as [|x t IH]; cbn; [reflexivity|]. now rewrite IH, orb_assoc. Qed.
+
+Definition digit_chars : list ascii := ["0"; "1"; "2"; "3"; "4"; "5"; "6"; "7"; "8"; "9"]%char.
+
+Lemma uint_digits_only c d :
+  (forall a, In a digit_chars -> Ascii.eqb a c = false) ->
+  has_char c (NilEmpty.string_of_uint d) = false.
+Proof.
+  intro Hc. induction d; cbn [NilEmpty.string_of_uint has_char]; rewrite ?IHd; try reflexivity;
+    rewrite Hc; try reflexivity; unfold digit_chars; cbn; tauto.
+Qed.
+
+Lemma print_pos_no_sep c k :
+  1 <= k -> (c = ":"%char \/ c = "="%char \/ c = ","%char) -> has_char c (print_Z k) = false.
+Proof.
+  intros Hk Hc. unfold print_Z. destruct k as [|p|p]; try lia. cbn [Z.to_int NilEmpty.string_of_int].
+  apply uint_digits_only. intros a Ha. unfold digit_chars in Ha. cbn [In] in Ha.
+  destruct Hc as [ -> | [ -> | -> ] ]; repeat (destruct Ha as [ Ha | Ha ]; [ subst a; reflexivity | ]); contradiction.
+Qed.
+
+(** the documented form  NAME=NUMBER : for every name free of ':' and '=' and every one-based field number the
+    parser returns the name and the zero-based column number, whatever includes_agg *)
+Theorem parse_field_param_name_number name k agg :
+  has_char ":" name = false -> has_char "=" name = false -> 1 <= k ->
+  parse_field_param (append name (String "=" (print_Z k))) true agg = FP name (Some (k - 1)) None None.
+Proof.
+  intros Hc He Hk. unfold parse_field_param.
+  assert (Hs : split ":" (append name (String "=" (print_Z k))) = [append name (String "=" (print_Z k))]).
+  { unfold split. rewrite split_aux_nosep; [reflexivity|].
+    rewrite has_char_append. cbn. rewrite Hc, (print_pos_no_sep ":" k Hk); [reflexivity|now left]. }
+  rewrite Hs.
+  assert (Hp : split "=" (append name (String "=" (print_Z k))) = [name; print_Z k]).
+  { unfold split. rewrite split_aux_first by assumption. cbn [append].
+    rewrite split_aux_nosep; [reflexivity|]. apply print_pos_no_sep; [assumption|right; now left]. }
+  rewrite Hp, parse_print_Z. replace (k - 1 <? 0) with false by lia. reflexivity.
+Qed.
+
+(** NAME alone (used to retype a standard column) and a malformed number *)
+Theorem parse_field_param_zero_refused name agg :
+  has_char ":" name = false -> has_char "=" name = false ->
+  parse_field_param (append name (String "=" (print_Z 0))) true agg = FPBad.
+Proof.
+  intros Hc He. unfold parse_field_param.
+  assert (Hs : split ":" (append name "=0") = [append name "=0"%string]).
+  { unfold split. rewrite split_aux_nosep; [reflexivity|]. rewrite has_char_append. cbn. now rewrite Hc. }
+  change (print_Z 0) with "0"%string. rewrite Hs.
+  assert (Hp : split "=" (append name "=0") = [name; "0"%string]).
+  { unfold split. change "=0"%string with (String "=" "0"). rewrite split_aux_first by assumption. reflexivity. }
+  rewrite Hp. reflexivity.
 Qed.
